@@ -251,7 +251,14 @@ class Apps(object):
 
         def ep():
             return outer.current()
-        self.app = Application([('/basic', ep, render_basic), ('/json', ep, render_json), ('/jsondev', ep, render_json_dev),
+
+        def ep_doc():
+            """Summary with 10% off, %s and %(name)s, {braces} {0}, <b>markup</b> & "quotes".
+
+            See https://example.com/docs?a=1&b=2 and www.example.org for more - 100%.
+            """
+            return outer.current()
+        self.app = Application([('/basic', ep, render_basic), ('/basicdoc', ep_doc, render_basic), ('/json', ep, render_json), ('/jsondev', ep, render_json_dev),
                                 ('/stream', ep, JSONRender(streaming=True, dev_mode=True)),
                                 ('/jsonp', ep, JSONPRender(dev_mode=True))])
         self.ep = ep
@@ -291,8 +298,9 @@ def check_value(acc, A, desc, factory, info, fresh_cache):
     sample_value = factory()
     kind = info['kind']
     vname = desc[0] if kind != 'container' else 'container'
-    for route in ('/basic', '/json', '/jsondev', '/stream', '/jsonp'):
+    for route in ('/basic', '/basicdoc', '/json', '/jsondev', '/stream', '/jsonp'):
         combos = [(f, a, cb) for f in FORMATS for a in ACCEPTS for cb in (None,)] if route == '/basic' else \
+                 [(f, a, None) for f in (None, 'html') for a in (None, 'text/html')] if route == '/basicdoc' else \
                  [(None, a, cb) for a in (None, 'text/html') for cb in ((None, 'cb9') if route == '/jsonp' else (None,))]
         for fmt, accept, cb in combos:
             q = '&'.join(x for x in ('format=' + fmt if fmt else '', 'callback=' + cb if cb else '') if x)
@@ -320,8 +328,9 @@ def check_value(acc, A, desc, factory, info, fresh_cache):
                 if res.code != 202 or body != b'direct response' or ct != 'text/x-direct':
                     bad('response-altered', 'a Response returned by the endpoint was not passed through')
                 continue
-            if route == '/basic':
-                judge_basic(A, bad, res, ct, body, sample_value, info, fmt, accept, factory, fresh_cache, q, hdrs, desc)
+            if route in ('/basic', '/basicdoc'):
+                judge_basic(A, bad, res, ct, body, sample_value, info, fmt, accept, factory,
+                            fresh_cache if route == '/basic' else None, q, hdrs, desc)
             else:
                 judge_json(bad, res, ct, body, sample_value, info, route, cb)
 
@@ -369,6 +378,8 @@ def judge_basic(A, bad, res, ct, body, value, info, fmt, accept, factory, fresh_
             bad('html-table', 'text/html body without a table')
             return
         # the shared renderer must not accumulate state: a fresh renderer answers identically
+        if fresh_cache is None:
+            return
         key = (json.dumps(desc), q, json.dumps(hdrs))
         fb = fresh_cache.get(key)
         if fb is None:
